@@ -36,8 +36,8 @@ func (m mutation) String() string {
 	switch m.Kind {
 	case "flip":
 		return fmt.Sprintf("%s:%s:flip@%d^%02x", mode, typeName[m.Type], m.Off, m.Mask)
-	case "trunc":
-		return fmt.Sprintf("%s:%s:trunc=%d", mode, typeName[m.Type], m.Len)
+	case "trunc", "trunc-primed":
+		return fmt.Sprintf("%s:%s:%s=%d", mode, typeName[m.Type], m.Kind, m.Len)
 	case "extend":
 		return fmt.Sprintf("%s:%s:extend+%d", mode, typeName[m.Type], m.Len)
 	}
@@ -158,6 +158,17 @@ func run(r *vk.Run, std *fix.Std, m mutation) (outcome, error) {
 				return nil
 			}
 			c.Data = c.Data[:m.Len]
+		case "trunc-primed":
+			// first a junk datagram (invalid type byte) that carries the original bytes, so that
+			// the receiver's reused receive buffer holds exactly the missing tail; then the
+			// truncated datagram. A receiver that reads past the datagram's end accepts it.
+			if m.Len > len(c.Data) {
+				return nil
+			}
+			junk := d.Clone()
+			junk.Data[0] = 0xEE
+			c.Data = c.Data[:m.Len]
+			return []*simnet.Datagram{junk, c}
 		case "extend":
 			c.Data = append(c.Data, make([]byte, m.Len)...)
 		case "dup":
@@ -258,7 +269,7 @@ func judge(r *vk.Run, m mutation, o outcome, total int) {
 	case "flip":
 		id += ":" + region(m.Type, m.Off, total)
 	}
-	altered := m.Kind == "flip" || m.Kind == "trunc"
+	altered := m.Kind == "flip" || m.Kind == "trunc" || m.Kind == "trunc-primed"
 	if altered {
 		if toServer(m.Type) {
 			if o.serverEstablished > 0 || o.offered > 0 {
@@ -308,7 +319,7 @@ func main() {
 		}
 		r.Finish()
 	}
-	r.SetRule("one execution = one real handshake over the simulated wire with exactly one alteration of one handshake datagram (types: 5 discoverable + 2 hidden): XOR masks {01,80,ff} at byte offsets (quick: every field boundary +-1 and every 16th offset; thorough: every offset), truncation to every length (quick: field boundaries and every 16th), trailing extension (recorded, not judged), duplicate delivery (benign, must still complete), and replacement by the same-type datagram of a concurrently running / an earlier completed handshake. Oracle: receiver of the altered datagram does not complete; when both complete: equal session id and directional keys, directions differ, all session keys of the run pairwise distinct, probe round-trips. distinct_nontrivial = distinct (mode,message,kind,field,client outcome,server outcome) classes observed.")
+	r.SetRule("one execution = one real handshake over the simulated wire with exactly one alteration of one handshake datagram (types: 5 discoverable + 2 hidden): XOR masks {01,80,ff} at byte offsets (quick: every field boundary +-1 and every 16th offset; thorough: every offset), truncation to every length (quick: field boundaries, every 16th and the last 40 lengths), for client-to-server messages also truncation after priming the server's reused receive buffer with a junk datagram carrying the original bytes, trailing extension (recorded, not judged), duplicate delivery (benign, must still complete), and replacement by the same-type datagram of a concurrently running / an earlier completed handshake. Oracle: receiver of the altered datagram does not complete; when both complete: equal session id and directional keys, directions differ, all session keys of the run pairwise distinct, probe round-trips. distinct_nontrivial = distinct (mode,message,kind,field,client outcome,server outcome) classes observed.")
 	var muts []mutation
 	lens := map[bool]map[byte]int{}
 	for _, hidden := range []bool{false, true} {
@@ -349,8 +360,11 @@ func main() {
 				}
 			}
 			for l := 0; l < total; l++ {
-				if r.Thorough() || offs[l] {
+				if r.Thorough() || offs[l] || total-l <= 40 {
 					muts = append(muts, mutation{Hidden: hidden, Type: t, Kind: "trunc", Len: l})
+					if toServer(t) && (r.Thorough() || total-l <= 40) {
+						muts = append(muts, mutation{Hidden: hidden, Type: t, Kind: "trunc-primed", Len: l})
+					}
 				}
 			}
 			for _, e := range []int{1, 16} {
